@@ -14,7 +14,7 @@ check("C01", "luaref+gen+glrun", "exploration",
       "small-scope exhaustive enumeration of programs against an executable reference model (bounded model checking of the implementation)", "DESIGN.md §4 C01")
 check("C09", "histbfs", "model_checking",
       "Explicit-state breadth-first search over all store histories up to a depth bound (16 keys of every type x 4 values x 11 store paths + Append), each transition executed on a real LTable; every distinct (map model, internal layout) state is checked with every read path, every length observer, every traversal driver and every single-mutation traversal against a Go map.",
-      "Bounded depth (3 quick / 5 thorough); MaxArrayIndex lowered to 8 in the checking process so the array/hash boundary is reachable; keys and values outside the alphabet are not covered.",
+      "Bounded depth (3 quick / 4 thorough); MaxArrayIndex lowered to 8 in the checking process so the array/hash boundary is reachable; keys and values outside the alphabet are not covered.",
       "explicit-state BFS of operation histories on the real table with a reference map", "DESIGN.md §4 C09")
 check("C15", "inputenum", "exploration",
       "Exhaustive small-scope enumeration of string-function arguments (all strings up to a length bound over a byte alphabet x all index pairs in a window), of format directives x argument values against libc snprintf, and of math arguments against exact / big.Float oracles; math.random ranges over all seeds 0..63.",
